@@ -170,6 +170,20 @@ PUMPS = (
     ("dots", '"test.op"() {a = ', ".", "} : () -> ()"),
     ("carets", "", "^", ""),
     ("percent-idents", '"test.op"(', "%a, ", "%a) : () -> ()"),
+    # literal forms whose conversion happens after lexing: hexadecimal bit patterns longer than the float type,
+    # a scalar where a complex pair is expected, byte escapes that are not UTF-8
+    ("hex-float-scalar-f32", '"test.op"() {a = 0x', "F", " : f32} : () -> ()"),
+    ("hex-float-scalar-f16", '"test.op"() {a = 0x', "F", " : f16} : () -> ()"),
+    ("hex-float-scalar-f64", '"test.op"() {a = 0x', "F", " : f64} : () -> ()"),
+    ("hex-float-dense-f32", '"test.op"() {a = dense<0x', "F", "> : tensor<f32>} : () -> ()"),
+    ("hex-float-dense-f64", '"test.op"() {a = dense<[0x', "F", ", 1.0]> : tensor<2xf64>} : () -> ()"),
+    ("hex-float-array-f32", '"test.op"() {a = array<f32: 0x', "F", ">} : () -> ()"),
+    ("hex-float-complex", '"test.op"() {a = dense<(0x', "F", ", 1.0)> : tensor<1xcomplex<f32>>} : () -> ()"),
+    ("scalar-for-complex", '"test.op"() {a = dense<', "1", "> : tensor<2xcomplex<f32>>} : () -> ()"),
+    ("complex-for-scalar", '"test.op"() {a = dense<(', "1", ", 2)> : tensor<2xi32>} : () -> ()"),
+    ("symbol-byte-escapes", '"test.op"() {a = @"', "\\ff", '"} : () -> ()'),
+    ("string-byte-escapes", '"test.op"() {a = "', "\\ff", '"} : () -> ()'),
+    ("symbol-nested-byte-escapes", '"test.op"() {a = @a::@"', "\\c3", '"} : () -> ()'),
 )
 
 
